@@ -85,7 +85,7 @@ Proof.
     assert (H : forall t u, v_kind (fold_left step t u) = v_kind u).
     { induction t as [|l t IH]; intros u; cbn [fold_left]; [reflexivity|]. rewrite IH.
       destruct l as [| | |c|c|]; cbn [step].
-      - destruct (v_started u); reflexivity.
+      - destruct (v_started u && negb (v_done u)); reflexivity.
       - destruct (v_listening u); reflexivity.
       - destruct (v_listening u); reflexivity.
       - destruct (nth_error (v_conns u) c) as [x|]; [|reflexivity].
@@ -113,8 +113,48 @@ Example C19_example :
      (false, false, true); (false, false, true); (false, false, true); (false, true, false)].
 Proof. vm_compute. reflexivity. Qed.
 
+(** Restart: once the serving task has completed, serve_forever() on the same server object serves
+    again (same address, a Unix server's socket file is back) and can be stopped again. *)
+Theorem C19_restart : forall k tr,
+  let s := run k tr in
+  v_done s = true ->
+  let s' := step s LStart in
+  v_listening s' = true /\ v_done s' = false /\ v_stopreq s' = false /\ v_conns s' = v_conns s /\
+  (k = Unix -> v_sockfile s' = true).
+Proof.
+  intros k tr s Hd s'. unfold s'. cbn [step]. rewrite Hd. rewrite andb_false_r. cbn.
+  repeat split; auto. intros ->.
+  assert (H : forall t u, v_kind (fold_left step t u) = v_kind u).
+  { induction t as [|l t IH]; intros u; cbn [fold_left]; [reflexivity|]. rewrite IH.
+    destruct l as [| | |c|c|]; cbn [step].
+    - destruct (v_started u && negb (v_done u)); reflexivity.
+    - destruct (v_listening u); reflexivity.
+    - destruct (v_listening u); reflexivity.
+    - destruct (nth_error (v_conns u) c) as [x|]; [|reflexivity].
+      destruct (k_client_open x && k_session x); [|reflexivity].
+      match goal with |- v_kind (settle ?z) = _ => destruct (settle_fields z) as [Hk _] end.
+      exact Hk.
+    - destruct (nth_error (v_conns u) c) as [x|]; [|reflexivity].
+      destruct (k_client_open x); [|reflexivity].
+      match goal with |- v_kind (settle ?z) = _ => destruct (settle_fields z) as [Hk _] end.
+      exact Hk.
+    - destruct (v_started u && negb (v_stopreq u)); [|reflexivity].
+      match goal with |- v_kind (settle ?z) = _ => destruct (settle_fields z) as [Hk _] end.
+      exact Hk. }
+  unfold s, run. rewrite H. reflexivity.
+Qed.
+
+Example C19_restart_example :
+  map (fun s => (v_listening s, v_done s, v_sockfile s))
+      (observe Unix [LStart; LConnect; LStop; LLeave 0; LStart; LConnect; LSend 1; LStop; LSend 1])
+  = [(true, false, true); (true, false, true); (false, false, true); (false, true, false);
+     (true, false, true); (true, false, true); (true, false, true); (false, false, true);
+     (false, true, false)].
+Proof. vm_compute. reflexivity. Qed.
+
 Print Assumptions C19_serving_until_stop.
 Print Assumptions C19_clients_served.
 Print Assumptions C19_disconnect_is_local.
 Print Assumptions C19_stop.
 Print Assumptions C19_socket_file.
+Print Assumptions C19_restart.
